@@ -5,9 +5,11 @@ from .base import *
 
 RULE = ("hb: all 49 (interval, timeout) pairs of {1,2,3,5,10,30,60}s (timeout < interval and = interval included) x delay patterns "
         "(0, constant, jittered below T, alternately 0 and T-1, always T-1, late answers >= T+1, single dropped answers) x silence "
-        "(never, before the first request, after k exchanges) x modes (bare session, through Client, Client with stream traffic). "
+        "(never, before the first request, after k exchanges) x modes (bare session, through Client, Client with stream traffic) x "
+        "client->peer transport (unbounded, or bounded to 64 / 256 / 1024 bytes so that padded packets are still being written while the peer answers; "
+        "the no-false-close patterns run over all 49 pairs on a bounded transport as well). "
         "Non-trivial = at least 3 requests in the observation window, or a closure; distinct by sha256 of the case.")
-SIDE_LEMMAS = 2      # GeneratedFacts: hb_rule_shape, cli_positive_seconds (+ client_glue_shape counted under C12)
+SIDE_LEMMAS = 3      # Gen/FactsTimed.v: hb_rule_shape, cli_positive_seconds, hb_baseline_shape
 ASSUMPTIONS = ["tokio interval (first tick immediate, MissedTickBehavior::Delay), sleep_until and select! behave as documented; frame writes are instantaneous",
                "order of independent timers at equal instants is not part of the property: generated cases avoid an answer arriving exactly at a tick or at a deadline (delay 0 is causal and allowed)",
                "release of all waiters on close is C09's subject; here closure is observed as the closed flag plus the transport shutdown seen by the peer",
@@ -61,10 +63,21 @@ def gen_cases(tier, seed):
                 for name, sc in scripts(r, I, T, nreq + 2):
                     if tier == "quick" and name in ("const", "drop1") and (Is + Ts) % 2:
                         continue
-                    mode = r.choice(["s", "s", "c", "ct"])
+                    mode = r.choice(["s", "s", "c", "ct", "s64", "s256", "c64", "c256", "ct1024", "s1024"])
                     n += 1
                     args = [mode, I, T, H] + ["x" if d is None else d for d in sc]
                     cs.append(Case("h%d" % n, "hb", args, "%s/%s" % (mode, name.split("-")[0]), True, meta={"pattern": name}))
+    # the no-false-close grid again over a BOUNDED client -> peer transport (64 / 256 / 1024 bytes): the padded packets of
+    # the session's padding phase are still being written while the peer already reads and answers
+    for Is in SECS:
+        for Ts in SECS:
+            I, T = Is * 1000, Ts * 1000
+            nreq = 6
+            H = nreq * I + T + I + 500
+            for name, sc in (("instant", [0] * (nreq + 2)), ("alt0max", [0 if k % 2 == 0 else T - 1 for k in range(nreq + 2)])):
+                mode = r.choice(["s", "c", "ct"]) + str(r.choice([64, 256, 1024]))
+                n += 1
+                cs.append(Case("hb%d" % n, "hb", [mode, I, T, H] + sc, "%s/%s" % (mode, name), True, meta={"pattern": name, "bounded": True}))
     return cs
 
 
